@@ -79,9 +79,11 @@ def name_pool(rng, n, long_names=False):
     return sorted(set(out))
 
 
-def gen_mixed(rng, nops=40, sessions=1, fail_rate=0.15, big_groups=False, resize=True, links=True, attrs=True, group_links=False, soft_links=False, shrink_grow=False):
+def gen_mixed(rng, nops=40, sessions=1, fail_rate=0.15, big_groups=False, resize=True, links=True, attrs=True, group_links=False, soft_links=False, shrink_grow=False, handles=0.0):
     """A random multi-object history: groups (nested), datasets (all layouts), writes, attributes, hard/soft links,
-    resizes, duplicate / missing-parent / invalid requests, optional close/reopen sessions."""
+    resizes, duplicate / missing-parent / invalid requests, optional close/reopen sessions.
+    handles > 0: in reopened sessions a dataset path is opened again with OpenDataset now and then ("opends") and the
+    dataset operations pick one of the handles obtained so far ("h"): several live handles on one object."""
     ops = []
     groups = ["/"]
     dsets = {}      # path -> dict(dtype, dims, maxdims, chunk, strsize)
@@ -104,6 +106,9 @@ def gen_mixed(rng, nops=40, sessions=1, fail_rate=0.15, big_groups=False, resize
             ops.append({"op": "dump"})
             ops.append({"op": "reopen"})
             cur_session += 1
+            continue
+        if handles and cur_session > 0 and dsets and rng.random() < handles:
+            ops.append({"op": "opends", "path": rng.choice(list(dsets))})
             continue
         r = rng.random()
         if r < fail_rate:
@@ -216,4 +221,52 @@ def gen_mixed(rng, nops=40, sessions=1, fail_rate=0.15, big_groups=False, resize
                     ops.append({"op": "write", "path": p, "val": rand_data(rng, d["dtype"], prod(d["dims"]), d["strsize"]).hex()})
                     ops.append({"op": "mkgroup", "path": "/afterclose"})
                 break
+    if handles:
+        sess = 0
+        for o in ops:
+            if o["op"] == "reopen":
+                sess += 1
+            elif sess > 0 and o["op"] in ("write", "setattr", "delattr") and o.get("path") in dsets and rng.random() < 0.6:
+                o["h"] = rng.randint(0, 3)
+    return ops
+
+
+def gen_handles(rng, nsess=2, nops=24):
+    """Attribute / data histories on a few datasets where, inside each reopened session, the same dataset path is opened
+    several times (opends) and the operations alternate between the handles obtained so far: every handle must see what
+    the others did, and nothing done through one handle may be undone by another (C10, C02, C16)."""
+    ops = []
+    paths = ["/d%d" % i for i in range(rng.choice([1, 2, 3]))]
+    names = ["a", "b", "c", "x", "y", "z"] + ["k%d" % i for i in range(rng.choice([0, 6, 10]))]
+    present = {p: set() for p in paths}
+    for p in paths:
+        ops.append({"op": "mkds", "path": p, "dtype": "int32", "dims": [4]})
+        ops.append({"op": "write", "path": p, "val": rand_data(rng, "int32", 4).hex()})
+        for nm in rng.sample(names, rng.choice([0, 2, 5, min(9, len(names))])):
+            k, v = rand_attr_value(rng)
+            ops.append({"op": "setattr", "path": p, "name": hx(nm), "kind": k, "val": v.hex()})
+            present[p].add(nm)
+    for _ in range(nsess):
+        ops += [{"op": "close"}, {"op": "dump"}, {"op": "reopen"}]
+        opened = {p: 0 for p in paths}
+        for _ in range(nops):
+            p = rng.choice(paths)
+            r = rng.random()
+            if opened[p] == 0 or r < 0.2:
+                ops.append({"op": "opends", "path": p})
+                opened[p] += 1
+                continue
+            hsel = rng.choice([opened[p] - 1, opened[p] - 1, rng.randrange(opened[p])])
+            if r < 0.35 and present[p]:
+                nm = rng.choice(sorted(present[p]))
+                ops.append({"op": "delattr", "path": p, "name": hx(nm), "h": hsel})
+                present[p].discard(nm)
+            elif r < 0.45:
+                ops.append({"op": "write", "path": p, "dtype": "int32", "val": rand_data(rng, "int32", 4).hex(), "h": hsel})
+            else:
+                nm = rng.choice(names)
+                k, v = rand_attr_value(rng, big=rng.random() < 0.1)
+                ops.append({"op": "setattr", "path": p, "name": hx(nm), "kind": k, "val": v.hex(), "h": hsel})
+                present[p].add(nm)      # (if the call is refused the oracle follows the implementation)
+    ops += [{"op": "close"}, {"op": "dump"}]
     return ops
